@@ -3,12 +3,20 @@ package restful
 import "strings"
 
 // H_C04: path parameters are bound to exactly the URL text they stand for.
-// stage 0: value views; stage 3: additionally the substitute-back round trip at a small capacity.
+// stage 0: value views; stage 3: additionally the substitute-back round trip at a small capacity; stage 5: as 0 after
+// Container.Router was called again with the other router and then with this one.
 func H_C04(tbl, router, stage int) {
 	t := vTableFor(tbl)
 	h := vNewH(t)
 	c := h.build(vRouter(router))
 	pathCap, maxSeg := 12, 3
+	if stage == 5 || stage == 15 {
+		// the container's router was configured more than once: the other one in between
+		c.Router(vRouter(1 - router))
+		c.Router(vRouter(router))
+		verifCover("router-set-again")
+		stage -= 5
+	}
 	if stage == 3 {
 		pathCap = 8
 	}
